@@ -212,6 +212,9 @@ pub assume_specification[ char::is_uppercase ](c: char) -> (b: bool)
 pub assume_specification[ char::is_lowercase ](c: char) -> (b: bool)
     ensures b == unicode_lowercase(c), (c as u32) < 128 ==> b == is_ascii_lower(c);
 
+/// assumed std contract: counting the characters of a string
+pub assume_specification<'a>[ <std::str::Chars<'a> as Iterator>::count ](it: std::str::Chars<'a>) -> (r: usize)
+    ensures r == vstd::std_specs::iter::IteratorSpec::remaining(&it).len();
 pub assume_specification[ String::len ](s: &String) -> (r: usize)
     ensures r as int == byte_len(s@);
 
